@@ -16,6 +16,7 @@ require (
 )
 
 require (
+	github.com/pelletier/go-toml/v2 v2.2.3
 	golang.org/x/text v0.21.0
 	gonum.org/v1/gonum v0.15.1
 )
